@@ -512,7 +512,9 @@ def c20():
         lo_ob("C20.out_buf", "h_out_buf", defines=["MI_MAX_DELAY_OUTPUT=64"], unwind=12, funcs=["mi_out_buf", "_mi_strlen", "_mi_memcpy"], cost=30,
               bounds="delayed-output buffer compiled at 64 bytes (MI_MAX_DELAY_OUTPUT is an #ifndef knob), any fill level, messages up to 8 characters"),
     ]
-    for name in ("mi_option_purge_delay", "mi_option_arena_reserve", "mi_option_verbose", "mi_option_eager_commit"):
+    obs.append(O("C20.heap_buf", "stats_buf.c", "h_heap_buf", unwind=14, replace={"mi_rezalloc": "stub_rezalloc"}, cost=30, funcs=["mi_heap_buf_print", "mi_heap_buf_expand"],
+                 bounds="caller buffer of every size 0..10 at every fill level, messages up to 6 characters"))
+    for name in ("mi_option_purge_delay", "mi_option_arena_reserve", "mi_option_verbose", "mi_option_show_errors"):
         obs.append(lo_ob("C20.option_env.%s" % name[10:], "h_option_env", defines=["OPT=%s" % name, "ENVLEN=6"], unwind=8, unwindset=ENV_LOOPS, replace=MSG_REPL, cost=200,
                          funcs=["mi_option_init", "mi_option_get", "mi_option_set", "mi_option_get_size", "_mi_getenv", "_mi_strlcpy", "_mi_strlcat", "_mi_strnlen", "_mi_toupper", "mi_mul_overflow"],
                          bounds="environment strings of up to 6 arbitrary characters for option %s" % name[10:]))
@@ -528,4 +530,26 @@ PROPS["C20"] = dict(
     assumptions=["_mi_prim_getenv returns an arbitrary NUL-terminated string within the bound (or nothing)", "strtol/strstr: reference implementations inside the harness",
                  "output sinks are empty stubs"],
     trusted=["libc_opts.c reference grammar evaluator"],
+)
+
+
+# ------------------------------------------------------------------------------------------------
+# C19 override (api_logic.c compiled with -DMI_MALLOC_OVERRIDE)
+def c19():
+    obs = []
+    for g, name in enumerate(["alloc", "release", "query_resize", "aligned"]):
+        obs.append(api_ob("C19.override.%s" % name, "h_override", defines=["MI_MALLOC_OVERRIDE=1", "GROUP=%d" % g] + SMALLB, cost=100,
+                          funcs=["malloc", "calloc", "realloc", "free", "cfree", "vfree", "reallocf", "reallocarray", "reallocarr", "malloc_usable_size", "malloc_size", "malloc_good_size",
+                                 "posix_memalign", "aligned_alloc", "memalign", "_aligned_malloc", "__libc_*", "__posix_memalign", "_Znwm/_Znam (+nothrow, +align_val_t)", "_ZdlPv/_ZdaPv (+sized, +aligned, +nothrow)",
+                                 "mi_new", "mi_new_nothrow", "mi_new_aligned", "mi_new_aligned_nothrow", "mi_heap_try_new", "mi_try_new_handler"],
+                          bounds="every override entry point of the Linux/glibc C build in family '%s', sizes <= 40, alignments 8..32, core may refuse" % name))
+    return obs
+
+
+PROPS["C19"] = dict(
+    obligations=c19,
+    bounds="the override translation unit as the C build compiles it (alloc.c + alloc-override.c with MI_MALLOC_OVERRIDE on Linux/glibc): every entry point called with symbolic arguments against the mock core",
+    outside="the dynamic loader's symbol interposition and whole programs under LD_PRELOAD; the C++ build of the library (operator new as C++ functions, exceptions); strdup/strndup/realpath contents; valloc/pvalloc page alignment (mock blocks are small)",
+    assumptions=API_STUBS + ["abort(): asserted to be reachable only from the throwing operator new forms"],
+    trusted=["api_logic.c mock heap"],
 )
